@@ -38,9 +38,9 @@ def carve(body, ddl, pos):
         return "K2"
     if lit not in simulate_spacing(ddl):
         return "K1"
-    if pos == "options" and "''" in body:
+    if pos in ("options", "col_options") and "''" in body:
         return "K14"
-    if pos in ("tblprop", "tblprop_key", "serdeprop") and "=" in body:
+    if pos in ("tblprop", "tblprop_key", "serdeprop", "col_tag", "tbl_tag") and "=" in body:
         return "K15"
     return None
 
@@ -67,6 +67,17 @@ POS = {
     "alter_default": ("create table t (a int, b varchar(9));\nalter table t add default {L} for b;", {}),
     "snow_comment": ("create table t (a int, b int) comment = {L};", {"output_mode": "snowflake"}),
     "two_literals": ("create table t (a varchar(5) default {L} comment 'k1', b varchar(5) comment {L} default 'k2', c int);", {}),
+    "serde_class": ("create table t (a int) row format serde {L};", {"output_mode": "hql"}),
+    "serdeprop": ("create table t (a int) row format serde 'c.S' with serdeproperties ('k'={L});", {"output_mode": "hql"}),
+    "inputformat": ("create table t (a int) stored as inputformat {L} outputformat 'o.F';", {"output_mode": "hql"}),
+    "coll_items": ("create table t (a int) row format delimited collection items terminated by {L} map keys terminated by 'x';", {"output_mode": "hql"}),
+    "map_keys": ("create table t (a int) row format delimited map keys terminated by {L};", {"output_mode": "hql"}),
+    "lines_term": ("create table t (a int) lines terminated by {L};", {"output_mode": "hql"}),
+    "col_options": ("create table t (a int, b int options(description={L}), c int);", {"output_mode": "bigquery"}),
+    "alter_add_default": ("create table t (a int);\nalter table t add b varchar(5) default {L};", {}),
+    "col_tag": ("create table t (a int, b int with tag (k1={L}), c int);", {"output_mode": "snowflake"}),
+    "tbl_tag": ("create table t (a int) with tag (k1={L});", {"output_mode": "snowflake"}),
+    "db_comment": ("create database d comment {L};", {}),
 }
 NUM_POS = {
     "default": ("create table t (a int, b bigint default {L} not null, c int);", {}),
@@ -105,6 +116,30 @@ def getter(pos, r):
         return t["properties"]["DATAFILE"], [t["tablespace_name"], t["properties"].get("SIZE")]
     if pos == "two_literals":
         return (t["columns"][0]["default"], t["columns"][1]["comment"]), [c["name"] for c in t["columns"]] + [t["columns"][0]["comment"], t["columns"][1]["default"]]
+    if pos == "serde_class":
+        return t["row_format"]["java_class"], [c["name"] for c in t["columns"]]
+    if pos == "serdeprop":
+        return t["row_format"]["properties"]["'k'"], [t["row_format"]["java_class"]]
+    if pos == "inputformat":
+        return t["stored_as"]["inputformat"], [t["stored_as"]["outputformat"]]
+    if pos == "coll_items":
+        return t["collection_items_terminated_by"], [t["map_keys_terminated_by"]]
+    if pos == "map_keys":
+        return t["map_keys_terminated_by"], [c["name"] for c in t["columns"]]
+    if pos == "lines_term":
+        return t["lines_terminated_by"], [c["name"] for c in t["columns"]]
+    if pos == "col_options":
+        return t["columns"][1]["options"][0]["description"], [c["name"] for c in t["columns"]]
+    if pos == "alter_add_default":
+        return t["columns"][1]["default"], [c["name"] for c in t["columns"]]
+    if pos == "col_tag":
+        v = t["columns"][1]["with_tag"]
+        return (v[3:] if isinstance(v, str) and v.startswith("k1=") else v), [c["name"] for c in t["columns"]]
+    if pos == "tbl_tag":
+        v = t["with_tag"]
+        return (v[3:] if isinstance(v, str) and v.startswith("k1=") else v), [c["name"] for c in t["columns"]]
+    if pos == "db_comment":
+        return t["comment"], [t["database_name"]]
     if pos == "alter_add":
         return t["columns"][1]["default"], [c["name"] for c in t["columns"]]
     raise KeyError(pos)
@@ -115,6 +150,8 @@ NEIGHBOURS = {
     "tbl_comment": ["a", "b"], "snow_comment": ["a", "b"], "type_enum": ["'z'"], "col_enum": ["a", "b", "c", "'q'"], "location": ["a"],
     "fields_term": ["a"], "tblprop": ["'k'"], "tblprop_key": ["'v'"], "options": ["a"], "schema_comment": ["s"], "check": ["a", "b", "c"],
     "datafile": ["ts", "10M"], "two_literals": ["a", "b", "c", "'k1'", "'k2'"], "alter_add": ["a", "b"],
+    "serde_class": ["a"], "serdeprop": ["'c.S'"], "inputformat": ["'o.F'"], "coll_items": ["'x'"], "map_keys": ["a"], "lines_term": ["a"],
+    "col_options": ["a", "b", "c"], "alter_add_default": ["a", "b"], "col_tag": ["a", "b", "c"], "tbl_tag": ["a"], "db_comment": ["d"],
 }
 
 _alnum = string.ascii_letters + string.digits
@@ -146,7 +183,7 @@ def case_strategy(draw):
 class C07(Prop):
     id = "C07"
     rule = ("case = (literal body over printable ASCII: letters, digits, blanks, all punctuation incl. ; -- # : < > [ ] { } \" ` @ & | "
-            "! ? $ % ~ + - * / . ^, keyword-shaped words, doubled quotes) x (17 literal positions: column DEFAULT (2), column / "
+            "! ? $ % ~ + - * / . ^, keyword-shaped words, doubled quotes) x (28 literal positions: column DEFAULT (2), column / "
             "table COMMENT (3), CREATE TYPE ENUM value, column ENUM value, LOCATION, FIELDS TERMINATED BY, TBLPROPERTIES key / "
             "value, OPTIONS value, schema COMMENT, CHECK operand, tablespace DATAFILE, ALTER .. ADD DEFAULT .. FOR, two literals "
             "in one statement), or a numeric default of 1..25 digits (3 positions); plus a deterministic sweep of every "
